@@ -8,6 +8,8 @@ _DONE = False
 PATCHES = [
     "crosshair.libimpl.relib._Match.groupdict replaced (0.0.110 returns spans and drops unmatched groups)",
     "crosshair.opcode_intercept MapAddInterceptor skipped for Enum keys (SystemError in dict displays keyed by Enum)",
+    "crosshair datetime/date/time/timedelta/timezone call patches removed (pure-Python datetime does not interoperate with the "
+    "real tzinfo objects dateutil returns); dates are therefore always concrete",
 ]
 
 
@@ -26,6 +28,12 @@ def install():
         return ret
 
     relib._Match.groupdict = groupdict
+
+    import datetime as _dt
+    from crosshair import core as _core
+
+    for real in (_dt.date, _dt.time, _dt.datetime, _dt.timedelta, _dt.timezone):
+        _core._PATCH_REGISTRATIONS.pop(real, None)
 
     from crosshair import opcode_intercept as oi
 
